@@ -83,6 +83,18 @@ def check_transform(acc, case, key, det, X, y, n, p):
     if dense.shape != model.shape or not np.array_equal(dense.to_numpy(), model):
         acc.violation("transform-columns", case, f"transform marks {dense.to_numpy().T.tolist()}, predict reports {ev}", key)
         return False
+    # the same data in a frame whose integer column labels are NOT the positions (labels p-1..0, and 1..p): affected
+    # columns are positions, so predict and the marked cells must not change
+    for cols in ("revint", "offint"):
+        X2 = pd.DataFrame(np.asarray(X), columns=dets.column_labels(cols, p))
+        y2 = det.predict(X2)
+        ev2 = dets.sparse_events(y2, "subset")
+        d2 = det.transform(X2)
+        if ev2 != ev or d2.shape != model.shape or not np.array_equal(d2.to_numpy(), model):
+            acc.violation("transform-columns-integer-labels", dict(case, column_labels=dets.column_labels(cols, p)),
+                          f"with integer column labels {dets.column_labels(cols, p)}: predict reports {ev2} (default labels: {ev}), "
+                          f"transform marks {d2.to_numpy().T.tolist()}", key)
+            return False
     return True
 
 
